@@ -1,6 +1,7 @@
 import L21.Proofs.LefRTLib
 import L21.Proofs.LefDec
 import L21.Proofs.LefImage
+import L21.Proofs.LefLexRT
 /-
 C05 — LEF write-then-read returns the library that was written: statement level.
 
@@ -81,6 +82,41 @@ theorem c05_read_write_read_noext (ts : List Tok) (l : Lib) (h : libBody (ts.len
   c05_read_write_read_partial ts l h (by simp [hext])
 
 /-! non-vacuity: a library with every kind of definition meets the hypotheses -/
+/-- **C05, text level.**  Whatever white space, line breaks, indentation and comments separate the
+    writer's tokens in the text — `L` is ANY layout of them — reading the text gives back the library.
+    `L.ok` holds the lexical side conditions: every name, number and string the writer prints is a
+    single LEF lexeme of its type (`tokWf`: a name holds no white space and does not start a comment
+    or a string, a string holds no `"`), and words are followed by white space.  That the real
+    writer's text is such a layout of the model's tokens is the `lef.wtokens` correspondence. -/
+theorem c05_write_read_text (l : Lib) (toks : List Tok) (hw : wLib l = some toks) (h : libOk l = true)
+    (L : LefLexRT.Layout) (hL : L.ok = true) (hi : L.items.map (·.1) = toks) : parse L.text = some l := by
+  rw [LefLexRT.parse_layout L hL, hi]
+  exact lib_roundtrip l toks hw h
+
+/-- extension data: token texts joined by one blank each re-lex to those tokens (the `hext`
+    condition of `c05_read_write_read_partial` holds for every block of lexemes without ENDEXT) -/
+theorem c05_ext_relex (n : Str) (ts : List Tok) (hwf : ts.all LefLexRT.tokWf = true) (hend : ts.all (fun t => !isEndExt t) = true) :
+    extOk (n, extJoin ts) = true := by
+  have hl : extTokens (extJoin ts) = ts := by
+    have := LefLexRT.tokens_layout ⟨⟨[], []⟩, ts.map fun t => (t, ⟨[' '], []⟩)⟩ (by
+      simp only [LefLexRT.Layout.ok, LefLexRT.Sep.ok, LefLexRT.segsOk, List.all_nil, Bool.and_true, Bool.true_and]
+      clear hend
+      induction ts with
+      | nil => rfl
+      | cons t r ih =>
+        simp only [List.all_cons, Bool.and_eq_true] at hwf
+        simp [LefLexRT.itemsOk, hwf.1, LefLexRT.Sep.ok, LefLexRT.segsOk, LefLexRT.gapOk, ih hwf.2]
+        decide)
+    have ht : (LefLexRT.Layout.text ⟨⟨[], []⟩, ts.map fun t => (t, ⟨[' '], []⟩)⟩) = extJoin ts := by
+      simp only [LefLexRT.Layout.text, LefLexRT.Sep.text, LefLexRT.segsText, List.append_nil, List.nil_append]
+      clear hwf hend this
+      induction ts with
+      | nil => rfl
+      | cons t r ih => simp [LefLexRT.itemsText, extJoin, LefLexRT.Sep.text, LefLexRT.segsText] at ih ⊢; exact ih
+    rw [ht] at this
+    simp [extTokens, this, List.map_map, Function.comp_def]
+  simp [extOk, hl, hend]
+
 def demoPin : Pin :=
   { name := ['A'], ports := [⟨none, [⟨['M', '1'], [.shape (.rect none ⟨⟨0, 0⟩, ⟨0, 0⟩⟩ ⟨⟨15, 1⟩, ⟨-2, 0⟩⟩),
         .iterate (.polygon (some ⟨1, 0⟩) [⟨⟨0, 0⟩, ⟨0, 0⟩⟩, ⟨⟨1, 0⟩, ⟨0, 0⟩⟩, ⟨⟨1, 0⟩, ⟨1, 0⟩⟩]) ⟨⟨2, 0⟩, ⟨3, 0⟩, ⟨5, 1⟩, ⟨5, 1⟩⟩], [], none, none, none⟩]⟩],
